@@ -165,6 +165,26 @@ theorem C12_tree_reduce_reaches_one (k d nb : Nat) (hk : 0 < k) (hnb : 0 < nb) (
 
 example : treeLevels 4 2 13 = 1 := by decide
 
+/-- reference: after the tree every reduced axis is the single chunk `(1,)`; with `keepdims` the declared
+shape is NumPy's (1 on the reduced axes), without it the reduced axes are squeezed away
+(`C12_declared_eq_reference_squeeze`). -/
+theorem C12_declared_eq_reference_reduction (x : Chunks) (axes : List Nat) :
+    shapeOf (mapIdxFrom (fun i c => if axes.contains i then [1] else c) 0 x) = reducedShape (shapeOf x) axes true :=
+  reduced_keepdims_shape x axes
+
+example : reducedShape [9, 3, 5] [0, 2] true = [1, 3, 1] ∧ reducedShape [9, 3, 5] [0, 2] false = [3] := by decide
+
+/-- `adjust_chunks={i: k}` / `map_blocks(chunks=(…, k, …))` with an integer: every block of that axis is declared
+with length `k` (the block function must return exactly `k` entries there, e.g. 1 for the arg-reductions' first
+step) and the number of blocks is unchanged. -/
+theorem C12_adjust_chunks_const (c c' : List Nat) (k b v : Nat)
+    (h : applyAdjust (some (.const k)) c = some c' ) (hv : c'[b]? = some v) : v = k ∧ b < c.length := by
+  simp only [applyAdjust, Option.some.injEq] at h
+  subst h
+  exact adjust_const_block c k b v hv
+
+example : applyAdjust (some (.const 1)) [4, 4, 1] = some [1, 1, 1] := by decide
+
 /-! ### concat, stack, unstack, repeat -/
 
 /-- `concat`: the block function allocates the declared chunk (`target_chunks[block_id]`); the declared
@@ -178,6 +198,15 @@ theorem C12_declared_eq_reference_concat (cmax total : Nat) (hc : 0 < cmax) :
   ⟨regGrid_sum cmax total, canon_regGrid cmax total hc⟩
 
 example : concatChunkss { args := [[[4, 4, 1], [3]], [[2], [3]]], axis := 0 } = some [[4, 4, 3], [3]] := by decide
+
+/-- the pieces `_array_slices` yields for the out block `[start, stop)` of the concatenated axis (one per
+operand it overlaps) have total length `stop - start`: the allocated block is filled completely, by
+in-range pieces. -/
+theorem C12_concat_pieces_cover (lens : List Nat) (start stop : Nat) (h1 : start ≤ stop) (h2 : stop ≤ lens.sum) :
+    piecesLen (arraySlices lens 0 0 start stop) = stop - start := by
+  rw [arraySlices_len]; omega
+
+example : arraySlices [9, 2, 0, 5] 0 0 8 12 = [(0, 8, 9), (1, 0, 2), (3, 0, 1)] := by decide
 
 /-- clause "every block written by `stack` matches its region" -/
 def StackBlockShapeOK (args : List Chunks) (axis : Nat) : Prop :=
